@@ -473,6 +473,7 @@ static void gen_c14(Builder &b, bool thorough) {
 	Context &gc = b.gc; rt::Rng &rng = b.rng;
 	b.key_limit = 3;
 	int ntasks = (int)rng.range(2, 4);
+	if (thorough && gc.small && rng.chance(1, 6)) ntasks = (int)rng.range(5, 8); // "any number of threads"
 	b.phase = 0; b.task = 0;
 	if (gc.mode == "preempt" && rng.chance(1, 2)) b.force_argon = (int)rng.pick(std::vector<uint32_t>{0u, F_SSSE3, F_AVX2, F_AVX2});
 	// shared objects
